@@ -405,7 +405,7 @@ fn gen_avcc(r: &mut Rng, out: &mut dyn Write) {
     };
     // an entry padded with escaped cabac_zero_words to a length around the 16-bit limit
     let pad_to = |mut nal: Vec<u8>, len: usize| -> Vec<u8> { while nal.len() + 3 <= len { nal.extend_from_slice(&[0, 0, 3]); } while nal.len() < len { nal.push(0); } nal };
-    let long_len = if r.below(2500) == 0 { Some(r.pick(&[65533, 65534, 65535]) as usize) } else if r.below(40) == 0 { Some(r.pick(&[255, 256, 257, 1000]) as usize) } else { None };
+    let long_len = if r.below(500) == 0 { Some(r.pick(&[65533, 65534, 65535, 65535]) as usize) } else if r.below(40) == 0 { Some(r.pick(&[255, 256, 257, 1000]) as usize) } else { None };
     let long_at = r.below(4) as usize; let mut entry_no = 0usize; // exactly one entry of the record is padded
     let nsps = if r.below(12) == 0 { 31 } else { r.below(3) }; d.push((if r.below(6) == 0 { r.next() as u8 & 0xe0 } else { 0xe0 }) | nsps as u8);
     let (p, c, l) = (d[1], d[2], d[3]);
